@@ -17,7 +17,8 @@ MANIFEST = {
     "design_ref": "DESIGN.md 3/C08",
     "level_text": "CBMC decides, for every series of length N, every insertion position and all element values, that vmin, vmax, "
                   "vargmin, vargmax (index shifted past the inserted null), count_valid, vsum, vfirst, vlast, vquantile (Lower, Higher, "
-                  "MidPoint; q in {0, 1/2, 1}), vmedian and vpercentile_of (3 methods) are unchanged by inserting one null; that the "
+                  "MidPoint; q in {0, 1/2, 1}), vmedian, vpercentile_of (3 methods) and the ranks assigned by vrank (plain and as a fraction of the valid "
+                  "count, both directions; N <= 3) are unchanged by inserting one null; that the "
                   "NaN and None encodings of one series give the same vmin / vmax / vargmin / vargmax / count_valid / vfirst / vlast / "
                   "vquantile(Lower); and that ts_vmin / ts_vsum return the same values as Vec<f64> and as Vec<Option<f64>>",
     "level_note": "trusted: Kani's MIR->goto translation, CBMC, CaDiCaL/MiniSat; std::fmt::format stubbed; bounds: N <= 3 quick "
@@ -29,7 +30,7 @@ MANIFEST = {
 def check(v, tier, opts):
     v.functions.update([
         "tea_core::AggValidBasic::{vmin,vmax,vargmin,vargmax,count_valid,vsum,vfirst,vlast}",
-        "tea_agg::VecAggValidExt::{vquantile (Lower, Higher, MidPoint), vmedian}", "tea_agg::AggValidExt::vpercentile_of (Rank, Weak, Strict)",
+        "tea_agg::VecAggValidExt::{vquantile (Lower, Higher, MidPoint), vmedian}", "tea_map::MapValidVec::vrank (pct / plain, rev)", "tea_agg::AggValidExt::vpercentile_of (Rank, Weak, Strict)",
         "tea_rolling::RollingValidCmp::ts_vmin, tea_rolling::RollingValidFeature::ts_vsum (f64 vs Option<f64> output)",
     ])
     if tier == "quick":
